@@ -65,7 +65,7 @@ impl Sc for f64 {
         if f as i128 != v as i128 || sh.abs() > 60 {
             return None;
         }
-        Some(f * 2f64.powi(sh))
+        Some(f * crate::q::pow2(sh))
     }
     fn to64(self) -> f64 {
         self
@@ -84,7 +84,7 @@ impl Sc for f32 {
         if f as i64 != v {
             return None;
         }
-        Some(f * 2f32.powi(sh))
+        Some(f * crate::q::pow2(sh) as f32)
     }
     fn to64(self) -> f64 {
         self as f64
@@ -388,7 +388,7 @@ fn err2(got: f64, s2: i128) -> f64 {
 }
 #[inline]
 fn to_units(a: f64, shf: i32) -> f64 {
-    a * 2f64.powi(1 - 2 * shf)
+    a * crate::q::pow2(1 - 2 * shf)
 }
 fn fmt_area(s2: i128, shf: i32) -> String {
     format!("{:e} (exact: {}/2 * 4^{})", s2 as f64 / 2.0 * 4f64.powi(shf), s2, shf)
@@ -587,7 +587,7 @@ fn pex_extent(ring: &[IP]) -> f64 {
 }
 /// exact lattice preimage of a coordinate produced by geo from lattice input (Rect::to_polygon corners)
 fn inv_ip<T: Sc>(c: Coord<T>, shf: i32) -> IP {
-    let s = 2f64.powi(-shf);
+    let s = crate::q::pow2(-shf);
     ((c.x.to64() * s) as i64, (c.y.to64() * s) as i64)
 }
 fn eq_form<T: ScF>(sh: &mut Shard, cx: &Cx, shf: i32, kind: &str, a: T, p: T, tol: f64, class: &str, calib: bool, extra: Value) {
